@@ -362,9 +362,12 @@ def build_base(env, case):
 
 
 SCALAR_OFF = {"sp": 66, "e": 98, "sd": 130}
-MUT_KINDS = (["bitflip"] * 3 + ["scalar"] * 4 + ["point"] * 4 + ["swap_points", "ctx_X", "ctx_Y", "ctx_msg", "ctx_msg"])
 SCALAR_SUBS = ["zero", "n", "n_plus_1", "max", "plus_n", "negate", "inc", "dec", "one", "n_minus_1"]
 POINT_SUBS = ["neg", "offcurve", "other_oncurve", "x_ge_p", "prefix"]
+FLAT_MUTS = (["bitflip"] * 12 + ["scalar:%s:%s" % (f, sub) for f in ("sp", "e", "sd") for sub in SCALAR_SUBS]
+             + ["point:%s:%s" % (f, sub) for f in ("R", "Rp") for sub in POINT_SUBS] * 2 + ["swap_points"] * 2
+             + ["ctx_X:" + x for x in ("other", "neg", "swap")] + ["ctx_Y:" + x for x in ("other", "neg", "swap")]
+             + ["ctx_msg:" + x for x in ("flip", "plus_n", "minus_n", "other")] * 2)
 
 
 @st.composite
@@ -378,18 +381,12 @@ def string_case(draw):
                    "odd": draw(st.integers(0, 1))}}
     muts = []
     for _ in range(draw(st.sampled_from([0, 1, 1, 1, 1, 2]))):
-        kind = draw(st.sampled_from(MUT_KINDS))
-        mu = {"kind": kind, "a": draw(st.integers(0, 1 << 20)), "b": draw(st.integers(0, 1 << 20))}
-        if kind == "scalar":
-            mu["field"] = draw(st.sampled_from(["sp", "sp", "e", "sd", "sd"]))
-            mu["sub"] = draw(st.sampled_from(SCALAR_SUBS))
-        elif kind == "point":
-            mu["field"] = draw(st.sampled_from(["R", "Rp"]))
-            mu["sub"] = draw(st.sampled_from(POINT_SUBS))
-        elif kind in ("ctx_X", "ctx_Y"):
-            mu["sub"] = draw(st.sampled_from(["other", "neg", "swap"]))
-        elif kind == "ctx_msg":
-            mu["sub"] = draw(st.sampled_from(["flip", "plus_n", "minus_n", "other"]))
+        parts = draw(st.sampled_from(FLAT_MUTS)).split(":")
+        mu = {"kind": parts[0], "a": draw(st.integers(0, 1 << 20)), "b": draw(st.integers(0, 1 << 20))}
+        if parts[0] in ("scalar", "point"):
+            mu["field"], mu["sub"] = parts[1], parts[2]
+        elif len(parts) > 1:
+            mu["sub"] = parts[1]
         muts.append(mu)
     case["muts"] = muts
     return case
@@ -484,7 +481,7 @@ def run_string(env, case):
     b = bytes(b)
     exp = A.verify(b, Xv, mv, Yv)
     got = lib_verify(env, b, lib.pubkey_from_point(Xv), mv, lib.pubkey_from_point(Yv))
-    env.require(got == (1 if exp else 0), "adaptor_verify verdict %d, specification says %d" % (got, exp), sig=b.hex(), X=ec.ser33(Xv).hex(), Y=ec.ser33(Yv).hex(), msg=mv.hex())
+    env.require(got == (1 if exp else 0), "adaptor_verify verdict %d, specification says %d" % (got, exp), sig=b.hex(), X=ec.ser33(Xv).hex(), Y=ec.ser33(Yv).hex(), m=mv.hex())
     no_callbacks(env, "adaptor_verify")
     classes.append("accept" if got else "reject")
     if not (sig_mut or ctx_mut) and "rx:r_zero" not in classes:
@@ -496,6 +493,14 @@ def run_string(env, case):
     elif not got:
         # robustness of decrypt / recover on strings that were NOT verified: no crash, no callback; only the soundness direction is asserted
         rd, sig = lib_decrypt(env, ec.i2b(case["y"]), b)
+        sp_raw, r_raw = ec.b2i(b[66:98]), ec.b2i(b[1:33]) % N
+        if not 1 <= sp_raw < N or r_raw == 0:
+            # the string does not deserialise (DLC specification: s' must be in [1, n), r must be non-zero): nothing to decrypt or recover from
+            env.require(rd == 0, "decrypt returned 1 for an adaptor signature whose s' is zero / out of range (or r = 0)", sig=b.hex())
+            zs = sig_obj(env, r_raw, 1)
+            rr, key = lib_recover(env, zs, b, lib.pubkey_from_point(Yv))
+            env.require(rr == 0, "recover returned 1 for an adaptor signature whose s' is zero / out of range (or r = 0)", sig=b.hex())
+            classes.append("undeserialisable_refused")
         if rd == 1:
             rr, key = lib_recover(env, sig, b, lib.pubkey_from_point(Yv))
             if rr == 1:
@@ -518,6 +523,30 @@ def run_string(env, case):
 def sweep_case(draw):
     return {"x": draw(gens.seckey_valid), "y": draw(gens.seckey_valid), "msg": draw(gens.msg32), "base": draw(st.sampled_from(["lib", "lib", "ref"])),
             "k": draw(gens.seckey_valid), "k2": draw(gens.seckey_valid), "sp": 1, "rx": None}
+
+
+def hyp_examples(strategy, n, *seedparts):
+    """n cases drawn by Hypothesis with a seed derived from VERIF_SEED (used by the sharded full-sweep tests, which are too heavy per case for the
+    driver's cases-per-shard rule but must still take every random choice from the shared strategies)."""
+    import os
+    from hypothesis import given, settings, seed, HealthCheck, Phase
+    from vf.core import derive_seed
+    out = []
+
+    @seed(derive_seed(int(os.environ.get("VERIF_SEED", "1") or "1") or 1, *seedparts))
+    @settings(max_examples=n, database=None, deadline=None, suppress_health_check=list(HealthCheck), phases=[Phase.generate], derandomize=False)
+    @given(strategy)
+    def collect(c):
+        out.append(c)
+
+    collect()
+    return out[:n]
+
+
+def sweep_enum(tier, shard, nshards):
+    per = 2 if tier == "quick" else 94
+    for c in hyp_examples(sweep_case(), per, "C14", "bitflips", shard, nshards):
+        yield c
 
 
 def run_sweep(env, case):
@@ -602,6 +631,6 @@ TESTS = [
     Test("verify_strings", string_case, run_string, quick=3000, thorough=120000,
          must_cover=["base:lib", "base:ref", "base:ref_sp", "base:ref_rx", "rx:r_zero", "rx:x_ge_n", "sp_plus_n_twin", "accept", "reject", "msg_alias",
                      "mut:scalar:sp:zero", "mut:scalar:sd:n", "mut:point:R:neg", "mut:point:Rp:neg", "mut:point:R:x_ge_p", "mut:point:Rp:prefix", "rec:s_zero"]),
-    Test("bitflips", sweep_case, run_sweep, quick=36, thorough=1500, must_cover=["swept"]),
+    Test("bitflips", sweep_enum, run_sweep, kind="enum", cfgs={"quick": ["prod"], "thorough": ["prod", "vsan"]}, must_cover=["swept"]),
     Test("small_group", small_case, run_small, quick=1200, thorough=40000, cfgs=SMALL, must_cover=["honest_verified", "sp_reenc", "sd_reenc", "sp_reenc:max"]),
 ]
